@@ -18,6 +18,8 @@ def replay(ctx, rep):
         same = True
         outs = []
         try:
+            if trace[0].get('open'):
+                ad.do_Begin({})
             for st in trace[1:]:
                 out, ret = ad.call(st)
                 outs.append((st['op'], st['e'], st['k'], st['x'], st['y'], out, sorted(ret)))
